@@ -50,7 +50,7 @@
             assert(acc + seq![(nk, nv)] =~= acc.push((nk, nv)));
             assert(acc.push((nk, nv)).drop_last() =~= acc);
         }
-//@ after 1 `result.insert(norm_key, vec![norm_value]);\n        }`
+//@ after 1 `result.insert(norm_key, vec![norm_value]);<NL>        }`
         proof {
             broadcast use axiom_string_key_model, axiom_map_updated_same_key;
             if old_map.contains_key(key0) {
